@@ -142,7 +142,20 @@ pub fn build_geom(raw: &RawGeom, g: usize, pool: &[C], other_cells: Option<&[boo
         });
     }
     let bias = f & 1 == 0; // half of the second operands are coincidence-biased
-    let pts: Vec<C> = raw.pts.iter().map(|p| pick(p, g, pool, bias)).collect();
+    // "inside a hole" mode: every point of the second operand is the centre of a cell enclosed by the first
+    // operand (points, lines and triangles strictly inside its holes, possibly several different holes)
+    let hole_pool: Vec<C> = match other_cells {
+        Some(oc) if matches!((f >> 1) & 7, 4 | 5) => {
+            let enc = enclosed(oc, g);
+            (0..BOARD * BOARD).filter(|k| enc[*k]).map(|k| (2 * (k % BOARD) as i64 + 1, 2 * (k / BOARD) as i64 + 1)).collect()
+        }
+        _ => vec![],
+    };
+    let pts: Vec<C> = if hole_pool.is_empty() {
+        raw.pts.iter().map(|p| pick(p, g, pool, bias)).collect()
+    } else {
+        raw.pts.iter().map(|p| hole_pool[(p.3 as usize * hole_pool.len()) >> 8]).collect()
+    };
     // cell mask, possibly derived from the other operand's
     let mut cells = raw.cells.clone();
     if let Some(oc) = other_cells {
@@ -162,6 +175,9 @@ pub fn build_geom(raw: &RawGeom, g: usize, pool: &[C], other_cells: Option<&[boo
             }
             _ => {}
         }
+    }
+    if other_cells.is_none() {
+        cells = effective_cells(raw, g);
     }
     let merge_sel = if (f >> 4) & 1 == 0 { 0 } else { (f as u64) | 1 };
     let polys = || trace(&cells, g, merge_sel);
@@ -355,8 +371,25 @@ pub fn build_geom(raw: &RawGeom, g: usize, pool: &[C], other_cells: Option<&[boo
     }
 }
 
-fn cells_of(raw: &RawGeom) -> &[bool] {
-    &raw.cells
+/// the cell mask a primary operand is traced from: its raw mask, or (many-holes family) the full board with
+/// sparse interior cells punched out (several separate holes, L-shaped holes, holes touching at corners)
+pub fn effective_cells(raw: &RawGeom, g: usize) -> Vec<bool> {
+    let f = raw.flags;
+    let mut cells = raw.cells.clone();
+    if (f >> 20) & 3 == 0 && g >= 3 {
+        let punched = cells.clone();
+        for j in 0..BOARD {
+            for i in 0..BOARD {
+                let k = j * BOARD + i;
+                let interior = i >= 1 && j >= 1 && i + 1 < g && j + 1 < g;
+                // punch density varies: sparse single-cell holes up to dense concave (L / U shaped) holes
+                // whose bounding boxes contain other holes
+                let keep = (crate::engine::splitmix64(f as u64 ^ (k as u64 * 0x9E37)) & 3) <= ((f >> 22) & 3) as u64;
+                cells[k] = i < g && j < g && !(interior && punched[k] && keep);
+            }
+        }
+    }
+    cells
 }
 
 fn apply_mat(g: &G, m: &Mat) -> G {
@@ -385,7 +418,7 @@ pub struct Pair {
 pub fn build_pair(ra: &RawGeom, rb: &RawGeom, g: usize, m: &Mat, far: Option<(i64, i64)>) -> Option<Pair> {
     let a = build_geom(ra, g, &[], None)?;
     let pool = feature_pool(&a);
-    let mut b = build_geom(rb, g, &pool, Some(cells_of(ra)))?;
+    let mut b = build_geom(rb, g, &pool, Some(&effective_cells(ra, g)))?;
     if let Some((dx, dy)) = far {
         b = b.map_coords(&|c| (c.0 + dx, c.1 + dy));
     }
@@ -460,7 +493,7 @@ pub fn scene_strategy(max_partners: usize) -> impl Strategy<Value = Scene> {
             }
             let mut partners = vec![];
             for rb in &rbs {
-                if let Some(b) = build_geom(rb, g, &pool, Some(cells_of(&ra))) {
+                if let Some(b) = build_geom(rb, g, &pool, Some(&effective_cells(&ra, g))) {
                     let b = apply_mat(&b, &m);
                     if in_relate_domain(&b) {
                         partners.push(b);
@@ -495,7 +528,7 @@ pub fn areal_scene_strategy() -> impl Strategy<Value = ArealScene> {
             rl.kind = kl;
             let a0 = build_geom(&ra, g, &[], None)?;
             let pool = feature_pool(&a0);
-            let b0 = build_geom(&rb, g, &pool, Some(cells_of(&ra)))?;
+            let b0 = build_geom(&rb, g, &pool, Some(&effective_cells(&ra, g)))?;
             // line work: always biased to A's features (runs along the boundary, through vertices)
             rl.flags &= !1;
             let l0 = build_geom(&rl, g, &pool, None)?;
@@ -578,7 +611,7 @@ pub mod bytes {
         let mut partners = vec![];
         for _ in 0..n {
             let rb = raw_geom(u)?;
-            if let Some(b) = build_geom(&rb, g, &pool, Some(cells_of(&ra))) {
+            if let Some(b) = build_geom(&rb, g, &pool, Some(&effective_cells(&ra, g))) {
                 let b = apply_mat(&b, &m);
                 if in_relate_domain(&b) {
                     partners.push(b);
@@ -597,7 +630,7 @@ pub mod bytes {
         let m = mat(u)?;
         let a0 = match build_geom(&ra, g, &[], None) { Some(x) => x, None => return Ok(None) };
         let pool = feature_pool(&a0);
-        let b0 = match build_geom(&rb, g, &pool, Some(cells_of(&ra))) { Some(x) => x, None => return Ok(None) };
+        let b0 = match build_geom(&rb, g, &pool, Some(&effective_cells(&ra, g))) { Some(x) => x, None => return Ok(None) };
         rl.flags &= !1;
         let l0 = match build_geom(&rl, g, &pool, None) { Some(x) => x, None => return Ok(None) };
         let (a, b, line) = (apply_mat(&a0, &m), apply_mat(&b0, &m), apply_mat(&l0, &m));
